@@ -28,7 +28,6 @@ inductive Tok where
 def isDigit (c : Char) : Bool := '0' ≤ c && c ≤ '9'
 def isNameStart (c : Char) : Bool := c == '_' || ('a' ≤ c && c ≤ 'z') || ('A' ≤ c && c ≤ 'Z')
 def isNameCont (c : Char) : Bool := isNameStart c || isDigit c
-def isNumChar (c : Char) : Bool := isDigit c || c == '.' || c == 'e' || c == 'E' || c == '+' || c == '-'
 def isIgnored (c : Char) : Bool := c == ' ' || c == '\t' || c == ',' || c == '\uFEFF'
 def isPunct (c : Char) : Bool :=
   c == '!' || c == '$' || c == '&' || c == '(' || c == ')' || c == ':' || c == '=' || c == '@' || c == '['
@@ -40,6 +39,51 @@ def strBody : List Char → Option (List Char × List Char)
   | '"' :: rest => some ([], rest)
   | '\\' :: c :: rest => (strBody rest).map fun (r, x) => ('\\' :: c :: r, x)
   | c :: rest => (strBody rest).map fun (r, x) => (c :: r, x)
+
+/-- at least one digit, then the rest -/
+def digits1 (l : List Char) : Option (List Char × List Char) :=
+  let ds := l.takeWhile isDigit
+  if ds.isEmpty then none else some (ds, l.dropWhile isDigit)
+
+/-- IntValue / FloatValue: `-? (0 | [1-9][0-9]*) (. [0-9]+)? ([eE] [+-]? [0-9]+)?`, not followed by `.` or a name start;
+    returns (lexeme, what follows) -/
+def numTok (l : List Char) : Option (List Char × List Char) :=
+  let (sign, l1) := match l with
+    | '-' :: r => (['-'], r)
+    | _ => ([], l)
+  let intPart : Option (List Char × List Char) :=
+    match l1 with
+    | '0' :: r => (match r with
+      | d :: _ => if isDigit d then none else some (['0'], r)
+      | [] => some (['0'], r))
+    | _ => digits1 l1
+  match intPart with
+  | none => none
+  | some (ip, l2) =>
+    let frac : Option (List Char × List Char) :=
+      match l2 with
+      | '.' :: r => (digits1 r).map fun (ds, r') => ('.' :: ds, r')
+      | _ => some ([], l2)
+    match frac with
+    | none => none
+    | some (fp, l3) =>
+      let exp : Option (List Char × List Char) :=
+        match l3 with
+        | e :: r =>
+          if e == 'e' || e == 'E' then
+            match r with
+            | sg :: r' =>
+              if sg == '+' || sg == '-' then (digits1 r').map fun (ds, r'') => (e :: sg :: ds, r'')
+              else (digits1 r).map fun (ds, r'') => (e :: ds, r'')
+            | [] => none
+          else some ([], l3)
+        | [] => some ([], l3)
+      match exp with
+      | none => none
+      | some (ep, l4) =>
+        match l4 with
+        | c :: _ => if c == '.' || isNameStart c then none else some (sign ++ ip ++ fp ++ ep, l4)
+        | [] => some (sign ++ ip ++ fp ++ ep, l4)
 
 /-- tokens of one line; `fuel` ≥ the length of the line -/
 def lexF : Nat → List Char → List Tok
@@ -58,7 +102,10 @@ def lexF : Nat → List Char → List Tok
       | some (raw, r) => .str raw :: lexF f r
       | none => [.err]
     else if isNameStart c then .name (c :: rest.takeWhile isNameCont) :: lexF f (rest.dropWhile isNameCont)
-    else if isDigit c || c == '-' then .num (c :: rest.takeWhile isNumChar) :: lexF f (rest.dropWhile isNumChar)
+    else if isDigit c || c == '-' then
+      match numTok (c :: rest) with
+      | some (lexeme, r) => .num lexeme :: lexF f r
+      | none => [.err]
     else [.err]
 
 def lexLine (l : List Char) : List Tok := lexF l.length l
